@@ -11,6 +11,7 @@ UNITS = {
     "linalg_f64": {"rlimit": 50},
     "fx": {"rlimit": 200},
     "ppspline": {"rlimit": 50},
+    "splines_dual": {"rlimit": 50},
 }
 
 COMMON_ASSUMPTIONS = [
@@ -235,7 +236,7 @@ CHECKS = {
         ],
     },
     "C15": {
-        "units": ["ppspline"],
+        "units": ["ppspline", "splines_dual"],
         "extra": "probe_engine",
         "probe": {
             "func": "csolve", "name": "c15::solved_spline_probe (bounded)", "where": "rust/splines/spline.rs",
@@ -254,7 +255,7 @@ CHECKS = {
         "uncovered": [
             "polynomial reproduction (Marsden's identity) and the sensitivity clauses (dual data, dual abscissa): not expressible here without a formalised spline theory",
             "least-squares mode: only the error returns are covered",
-            "ppdnev_single_dual / ppdnev_single_dual2 / mapped_value",
+            "ppdnev_single_dual / ppdnev_single_dual2 / mapped_value (the sums over basis functions at a dual abscissa): bounded probe only; the four basis functions at a dual abscissa ARE under contract (unit splines_dual: chain rule with D^m B, D^(m+1) B, D^(m+2) B)",
         ],
     },
     "C07": {
